@@ -530,3 +530,65 @@ Proof.
   apply (PP_prel s5); [unfold PP; rewrite Esl5; exact P5|apply prel_reset_recipes].
 Qed.
 End PP.
+
+Section PP2.
+Variable n : net.
+Notation N := (NN n).
+Hypothesis HN : 2 <= N.
+Hypothesis Hout : NoDup (output n).
+
+Theorem step_preserves_PP p s : InvC n s -> PP n s -> prim_pre n p s -> PP n (step n p s).
+Proof.
+  intros HI HP Hp. pose proof (InvC_chok n s HI) as Hc.
+  destruct p as [nd|nd|x y lg c z|g nd|f| | | | | |pr a b c|ind pj|ind| |k]; cbn [step].
+  - unfold PP. destruct (add_node_fields nd s) as (_&E&_). rewrite E. apply PPT_add_node, HP.
+  - unfold PP. destruct (remove_node_facts n HN nd s Hc) as (E&_). rewrite E. apply PPT_remove_node; [exact HN|exact Hc|apply HI|exact HP].
+  - cbn [prim_pre prim_preN prim_pre1 prim_pre0] in Hp. destruct Hp as (Gx&Gy&HR&_).
+    unfold PP. destruct (contract_pair_facts n HN x y lg c z s Hc) as (E&_); [apply Gx|apply Gy|apply HR|].
+    rewrite E. apply PPT_contract_pair; [exact HN|exact Hc|apply Gx|apply Gy|apply HR|exact HP].
+  - apply (PP_prel n s); [exact HP|apply do_get_prel; assumption].
+  - apply (PP_prel n s); [exact HP|apply crel_prel, contract_stats_crel; assumption].
+  - apply (PP_prel n s); [exact HP|apply crel_prel, total_flops_crel; assumption].
+  - apply (PP_prel n s); [exact HP|apply crel_prel, total_write_crel; assumption].
+  - apply (PP_prel n s); [exact HP|apply crel_prel, max_size_crel; assumption].
+  - apply (PP_prel n s); [exact HP|apply prel_reset_inds].
+  - apply (PP_prel n s); [exact HP|apply prel_reset_recipes].
+  - apply (PP_prel n s); [exact HP|apply sort_inds_prel; assumption].
+  - apply remove_ind_PP; assumption.
+  - apply restore_ind_PP; assumption.
+  - apply (PPT_info n _ _ _ s); auto.
+  - destruct (memb k (cores s)); [exact HP|apply (PPT_info n _ _ _ s); auto].
+Qed.
+Lemma init_state_PP : PP n (init_state n).
+Proof.
+  unfold PP, PPT. cbn [init_state preproc info sliced]. split; [constructor|]. split; [intros k e H; discriminate|]. split.
+  - intros k H. exfalso. apply H. unfold rd. cbn [info].
+    destruct (nget [k] _) as [i|] eqn:E; [|reflexivity]. apply nget_In, in_app_iff in E.
+    assert (Ei : i = noinfo) by (destruct E as [E|[E|[]]]; [apply in_map_iff in E; destruct E as (j & Hj & _); congruence|congruence]).
+    subst i. reflexivity.
+  - intros k Hk. unfold nkeys. rewrite map_app, in_app_iff, map_map. left. cbn [fst]. apply in_map_iff. exists k. split; [reflexivity|apply in_seq; lia].
+Qed.
+
+(* QP: cost invariant, (A), preprocessing *)
+Definition QP (s : tstate) : Prop := QA n s /\ PP n s.
+Theorem step_preserves_QP p s : QP s -> primA_pre n p s -> QP (step n p s).
+Proof.
+  intros [HQ HP] Hp. split; [apply step_preserves_QA; assumption|]. apply step_preserves_PP; [apply HQ|exact HP|apply Hp].
+Qed.
+Theorem run_preserves_QP tr : forall s, QP s -> preA_trace n tr s -> QP (run n tr s).
+Proof.
+  induction tr as [|p tr IH]; intros s HQ Hp; [exact HQ|]. destruct Hp as [H1 H2]. cbn [run fold_left].
+  apply (IH (step n p s)); [apply step_preserves_QP; assumption|exact H2].
+Qed.
+Theorem init_state_QP : QP (init_state n).
+Proof. split; [apply init_state_QA; assumption|apply init_state_PP]. Qed.
+
+(* completeness: once every leaf has cached legs, preprocessing is exactly the set of from-scratch
+   simplifications *)
+Lemma eqb_pair_refl (e : list nat * list nat) : eqb e e = true.
+Proof.
+  destruct e as [a b]. change (list_eqb Nat.eqb a a && list_eqb Nat.eqb b b = true).
+  assert (R : forall l, list_eqb Nat.eqb l l = true) by (induction l as [|x l IH]; cbn; [reflexivity|rewrite Nat.eqb_refl, IH; reflexivity]).
+  rewrite !R. reflexivity.
+Qed.
+End PP2.
